@@ -16,6 +16,12 @@ from .state import mk_controller, mk_objfun, EvalLog, objective, UserObjfunError
 
 LinAlgError = _np.linalg.LinAlgError
 
+
+def sym_bterm(c):
+    from . import sym
+    import z3
+    return z3.BoolVal(c) if isinstance(c, bool) else sym.bterm(c)
+
 RANDOM_OPTIONS = ['init.random_initial_directions', 'growing.perturb_trust_region_step', 'regression.momentum_extra_steps',
                   'restarts.increase_npt', 'growing.num_new_dirns_each_iter', 'growing.safety.do_safety_step(growing)']
 
@@ -101,6 +107,16 @@ def install_stubs(E, C, M, params, n, m, log, xr, nsample_mode, rec):
         raise core.PathAbort('unsupported', 'direct RNG use inside the main loop')
     E.hooks(rng=rng, la=la)
 
+    if E.symbolic:
+        # assume-guarantee: reduce_rho runs for real; what the UF abstraction cannot see about its sqrt/quotient is supplied from the
+        # exact QF_NRA lemma reduce_rho[*] (C18): rhoend <= rho' < rho
+        orig_reduce = Controller.reduce_rho
+
+        def reduce_rho(self, current_iter, params):
+            rho0 = self.rho
+            orig_reduce(self, current_iter, params)
+            E.p.axiom(sym_bterm(E.all([self.rhoend <= self.rho, E.implies(rho0 > self.rhoend, self.rho < rho0), self.rho <= rho0])))
+        E.patch_attr(Controller, 'reduce_rho', reduce_rho)
     orig_eval = Controller.evaluate_objective
 
     def evaluate_objective(self, x, number_of_samples, params):
@@ -426,7 +442,7 @@ STUBS = ["objfun: fresh residual vector per call", "nsamples callback: constant 
          "Model.lagrange_gradient: fresh values or LinAlgError, deterministic in the factorisation state",
          "trsbox_geometry: fresh point inside [lower, upper] (C13 contract)",
          "random_directions_within_bounds / random_orthog_directions_within_bounds: fresh directions inside [lower, upper] (C14 contract)",
-         "scipy.linalg.qr, scipy.stats.linregress: fresh values; in the growing presets vector norms taken by the code are assumed non-zero", "math.log: uninterpreted strictly monotone function",
+         "scipy.linalg.qr, scipy.stats.linregress: fresh values; in the growing presets vector norms taken by the code are assumed non-zero", "math.log: uninterpreted strictly monotone function", "Controller.reduce_rho: executed for real; its proved contract rhoend <= rho' < rho (exact QF_NRA lemma reduce_rho[*]) is added as an axiom because the UF abstraction hides the sqrt/quotient",
          "products / quotients / squares / square roots of two symbolic values: uninterpreted functions with sign, zero and unit axioms (over-approximation); counterexamples are re-checked under exact nonlinear semantics and replayed concretely"]
 
 INV = ["1 <= nx <= nf <= maxfun; eval numbers of occupied and saved slots in [1, nx]; sample counts >= 1",
